@@ -16,6 +16,7 @@ def run(tier, seed):
         mc = [dict(name='C06_env', progs=C.fam(wait), plans=[[]], alphabet=alpha, k=4, invariants=INV, overrides=ov, extra_defs=xd),
               dict(name='C06_awaitables', progs=C.fam(['W1', 'W3', 'W4']), plans=[[]], alphabet=['complete', 'pause', 'play', 'kill'], k=4, invariants=INV)]
         rp = [dict(name='C06_env', progs=C.fam(['P03', 'P05', 'P10']), plans=[[]], alphabet=alpha, k=3, overrides=ov, extra_defs=xd),
+              dict(name='C06_wake4', progs=C.fam(['P03']), plans=[[]], alphabet=['resume', 'pause', 'play'], k=4, overrides=ov, extra_defs=xd),
               dict(name='C06_awaitables', progs=C.fam(['W1', 'W3']), plans=[[]], alphabet=['complete', 'pause', 'play', 'kill'], k=3)]
     else:
         mc = [dict(name='C06_env', progs=C.fam(wait), plans=[[]], alphabet=alpha, k=6, invariants=INV, overrides=ov, extra_defs=xd),
